@@ -640,6 +640,24 @@ def correspondence(ctx):
                          % (min(f5_lengths), max(f5_lengths), min(f5_lengths)))
     ctx.extra["host_name_lengths_covered"] = "1..253 (every length)"
 
+    # ---- 2b: a malformed host update (no comma after the name): the helper must leave through its clean-up,
+    #          neither act on the partial record nor go on with later lines (implementation-only oracle)
+    for bad in (b"HOST fileserver\n", b"HOST \n", b"HOST a.b.c\n", b"HOST 10.0.0.1\n", b"HOST name 10.0.0.1\n",
+                b"HOST " + gen_name(rng, 40) + b"\n", b"HOST x;10.0.0.1\n"):
+        for before in (0, 1, 2):
+            pre = [(b"good%d" % i, b"10.0.0.%d" % (i + 1)) for i in range(before)]
+            d = d_base + b"".join(impl_sethostip(a, b) for a, b in pre) + bad + impl_sethostip(b"later", b"10.9.9.9")
+            got = impl_main(d)
+            n_rewrites = got.split(" | RESTORE")[0].count("HOSTS ")      # the clean-up's own restore is not counted
+            ctx.case(("badhost", bad, before), nontrivial=True)
+            ctx.count("malformed_host_update_cases")
+            acted = hx(b"later") in got or n_rewrites > before
+            if acted or got.endswith("EXIT return"):
+                ctx.violation("the helper acted on a malformed host update (no comma after the name) or went on after it "
+                              "instead of leaving through its clean-up",
+                              {"kind": "badhost", "dialogue_hex": hx(d), "helper": got[-600:],
+                               "hosts_file_rewrites": n_rewrites, "well_formed_updates_before": before})
+
     # ---- 3: truncation at every byte position
     ndial = 40 if quick else 400
     lines, impls, descr = [], [], []
